@@ -102,7 +102,7 @@ CHECKS["C17"] = {
     "note": "Trusted: Coq kernel + vm_compute; hand-written Model/Population.v tied by correspondence only "
             "(sampled inputs, 1e-9 tolerance); the harness' JSON->fshape parser; proportions / std-errs "
             "are taken from the implementation's public API (owned by C03/C11); the categorical-date "
-            "position comes from the generator. Three open findings (known_findings.d/C17-*.json). MoE at "
+            "position comes from the generator. Three FIXED findings (known_findings.d/C17-*.json, status fixed). MoE at "
             "difference subtotals is Z*N*f*stderr of the difference (not NaN) - read as covered by the MoE "
             "clause. Booleans / strings as JSON numbers are not modelled (skipped and counted).",
     "design_ref": "DESIGN.md section 3 (C17), 2.4, section 4 #12",
